@@ -4,7 +4,7 @@
    C09 as a whole ("for every room in the envelope the pipeline returns the truth within 1 mm / 1 mrad, unlinked
    systems raise") depends on IPPE (SVD), the mirror vote, an eigen-decomposition and scipy.least_squares; none of
    these has a Gallina model here.  Shape of the full statement, over an arbitrary pipeline function: *)
-From CF Require Import Common.Bytes C09.Model C09.Proofs_matcher C09.Proofs_link C09.Proofs_est C09.Gen_Matcher C09.GenTie C09.Vote C09.Proofs_vote C09.Pure C09.Proofs_pure C09.Decide C09.Proofs_decide.
+From CF Require Import Common.Bytes C09.Model C09.Proofs_matcher C09.Proofs_link C09.Proofs_est C09.Gen_Matcher C09.GenTie C09.Vote C09.Proofs_vote C09.Pure C09.Proofs_pure C09.Decide C09.Proofs_decide C09.Container C09.Proofs_container.
 Open Scope Z_scope.
 
 Definition C09_full {Room Answer : Type} (in_envelope linked : Room -> Prop) (pipeline : Room -> option Answer)
@@ -182,7 +182,9 @@ Print Assumptions C09_shared_scratch_refuted.
 
 (* ---- the bucket vote for one station pair.  IF all true candidates fall into one bucket h (e.g. they are within
         accept_radius of the first sample's true candidate and of no earlier reference) AND every bucket that holds a
-        non-true candidate holds strictly fewer candidates than bucket h (counting premise), THEN the vote returns
+        non-true candidate is another bucket, strictly smaller than bucket h when it comes before h and not larger
+        when it comes after h (counting premise with the code's tie-break: the FIRST largest bucket wins; a pair seen in
+        a single sample satisfies it when IPPE lists the true solutions first), THEN the vote returns
         exactly the bucket of the true candidates, and its mean is true. *)
 Theorem C09_vote_sufficient_partial :
   forall (P : Type) (near : P -> P -> bool) (mean : list P -> P) (istrue : P -> Prop),
@@ -195,7 +197,8 @@ Theorem C09_vote_sufficient_partial :
       (forall c, In c all -> istrue c -> first_near near c refs O = Some h) ->
       (exists c, In c all /\ istrue c) ->
       (forall i, (i < 4)%nat -> (exists c, In c (bucket_of near refs all i) /\ ~ istrue c) ->
-                 (length (bucket_of near refs all i) < length (bucket_of near refs all h))%nat) ->
+                 ((i < h)%nat /\ (length (bucket_of near refs all i) < length (bucket_of near refs all h))%nat) \/
+                 ((h < i)%nat /\ (length (bucket_of near refs all i) <= length (bucket_of near refs all h))%nat)) ->
       vote near pls = bucket_of near refs all h /\ Forall istrue (vote near pls) /\ istrue (mean (vote near pls)).
 Proof. exact (@vote_correct). Qed.
 Print Assumptions C09_vote_sufficient_partial.
@@ -259,3 +262,49 @@ Theorem C09_vote_premise_fails_near_coincident_refuted :
   premise_fails cfg_coincident 20 0 /\ vote near80 cfg_coincident = [20; 12; -15; -23; 20; 9; -22; -33].
 Proof. exact coincident_config. Qed.
 Print Assumptions C09_vote_premise_fails_near_coincident_refuted.
+
+(* ---- Wave 11: LighthouseBsVectors.projection_pair_list / angle_list are functions of the CURRENT contents of the
+        container (a Python list): after ANY sequence of in-place updates (item / slice assignment, clear + extend,
+        append, pop, reverse) and earlier reads, the k-th read returns angle_list of the contents at that moment, and
+        reads change nothing. *)
+Theorem C09_container_reads_are_pure :
+  forall (ops : list cop) (l : list bsvec),
+    (forall pre k, nth_error (reads ops l) k = Some pre ->
+       exists before after, ops = before ++ CRead :: after /\ pre = angle_list (contents before l) /\
+                            length (filter is_read before) = k) /\
+    last (reads (ops ++ [CRead]) l) [] = angle_list (contents ops l) /\
+    contents ops l = contents (filter (fun o => negb (is_read o)) ops) l.
+Proof. exact container_reads_are_pure. Qed.
+Print Assumptions C09_container_reads_are_pure.
+
+(* refuted for a container that keeps the array of an earlier read while the NUMBER of vectors is unchanged *)
+Theorem C09_length_keyed_cache_refuted :
+  exists (ops : list cop) (l : list bsvec),
+    last (cached_reads (ops ++ [CRead]) l None) [] <> angle_list (contents ops l) /\
+    last (reads (ops ++ [CRead]) l) [] = angle_list (contents ops l).
+Proof. exact length_keyed_cache_refuted. Qed.
+Print Assumptions C09_length_keyed_cache_refuted.
+
+(* ---- Wave 12: the code of /repo has NO count threshold on station pairs: a pair seen together in at least one sample
+        always gets a non-empty winning bucket, hence a voted position (for any accept test that accepts a candidate
+        against itself); together with C09_angles_to_poses_sufficient_partial, which holds for any number of samples,
+        no error-free sample is dropped under the premises. *)
+Theorem C09_every_seen_pair_voted_partial :
+  forall (P : Type) (near : P -> P -> bool) (refs : list P) (rest : list (list P)),
+    (forall p, near p p = true) -> refs <> [] -> vote near (refs :: rest) <> [].
+Proof. exact (@vote_nonempty). Qed.
+Print Assumptions C09_every_seen_pair_voted_partial.
+
+(* refuted for a variant that trusts a pair only when it is seen in >= ceil(0.05 n) samples, at n = 21 (threshold 2):
+   21 error-free samples, stations 1 and 2 together only in the FIRST one; /repo's logic keeps all 21 samples and stores
+   the true poses for the first; the variant drops exactly the first sample (the reference frame) and nothing else;
+   with threshold 1 (n <= 20) the variant coincides with /repo's logic on this input *)
+Theorem C09_pair_count_threshold_refuted :
+  length cfg_sparse = 21%nat /\
+  forallb is_some (decide dist_cm Z.ltb 80 50 10000000 mean_cm (fun a b => b - a) 0 cfg_sparse) = true /\
+  nth 0 (decide dist_cm Z.ltb 80 50 10000000 mean_cm (fun a b => b - a) 0 cfg_sparse) None
+    = Some [(1, 0); (2, 200)] /\
+  nth 0 (decide_thr dist_cm Z.ltb 80 50 10000000 mean_cm (fun a b => b - a) 0 2 cfg_sparse) None = None /\
+  forallb is_some (tl (decide_thr dist_cm Z.ltb 80 50 10000000 mean_cm (fun a b => b - a) 0 2 cfg_sparse)) = true.
+Proof. exact pair_threshold_refuted. Qed.
+Print Assumptions C09_pair_count_threshold_refuted.
